@@ -244,7 +244,7 @@ def run_ports (case, rep):
         return True
       if len(case["steps"]) % 2 and reason != REASON_FEATURES:
         # ... and a notification on the other one leaves this one alone
-        od = ctl.phy_port(n, name="o%d_%s" % (n, nm), hw=hw, config=cfg, state=0)
+        od = ctl.phy_port(n, name="o%x_%s" % (n, nm), hw=hw, config=cfg, state=0)
         oraw = ofwire.enc_message("port_status", dict(
           xid=0, reason=REASON_DELETE if n in other_model and cfg else REASON_MODIFY, desc=od))
         nb = len(events)
@@ -527,12 +527,15 @@ def do_case (case, rep):
 
 def gen_ports (rng, n, maxlen):
   for ci in range(n):
-    nums = [1, 2, 3, 4]
+    # (four port numbers; every third history uses the ends of the range:
+    #  0, the highest physical number, the local port)
+    nums = [[1, 2, 3, 4], [1, 2, 3, 4], [0, 1, 2, 0xfffe],
+            [0, 7, 0xff00, 0xfffe]][rng.randrange(4) if ci % 3 == 0 else 0]
     version = {}
     def fresh (no):
       version[no] = version.get(no, 0) + 1
       v = version[no]
-      return ("eth%d_%d" % (no, v), bytes([2, 0, v, 0, 0, no]))
+      return ("e%x_%d" % (no, v), bytes([2, 0, v, 0, no >> 8, no & 255]))
     initial = []
     for no in rng.sample(nums, rng.randrange(0, 5)):
       nm, hw = fresh(no)
